@@ -8,7 +8,8 @@ use vcore::{json, Check, Outcome, Report, Tier, Value};
 
 const DIGITS: [i64; 5] = [-2, -1, 0, 1, 3];
 const XS: [f64; 5] = [-3.0, -1.5, 0.0, 0.75, 3.0];
-const HS: [f64; 4] = [1e-3, 1e-2, 0.1, 0.5];
+/// decimal and dyadic steps (an exact power of two is a step for which scaling by h or h^2 is exact: a separate code path is plausible)
+const HS: [f64; 9] = [1e-3, 0.001953125, 0.0078125, 1e-2, 0.1, 0.125, 0.25, 0.3, 0.5];
 
 #[derive(Serialize, Deserialize, Clone)]
 pub struct PolyPt {
